@@ -14,7 +14,7 @@ import itertools
 import warnings
 
 from .. import symref as S
-from ..explore import leaves, prefixes, run_leaf, Skip
+from ..par import run_harness, replay_generic
 from ..findings import violation
 from ..runner import Report
 
@@ -164,13 +164,17 @@ def harness_factory(quick, seed):
                 return t, src, want, ("EXC", type(e).__name__, str(e)[:120])
         return t, src, want, got
 
-    return h
+    return h, judge
 
 
 def judge(ch, out):
     t, src, want, got = out
     feats = dict(depth=t["depth"], modes="".join(m[0] for m in t["modes"]),
                  own_var_missing=",".join(str(k) for k in range(t["depth"]) if k not in t["S"][k]) or "none")
+    # non-trivial: some inner level closes over an outer variable, or omits its own
+    nontriv = any((set(t["S"][k]) - {k}) or (k not in t["S"][k]) for k in range(1, t["depth"]))
+    res = dict(v=None, nontrivial=nontriv, outcome=round(want, 9),
+               sample=dict(choices=list(ch.choices), source=src, expected=want, observed=got))
     repro = ("import warnings; warnings.simplefilter('ignore')\nimport autograd, autograd.numpy as np\n"
              "from autograd import grad, deriv, elementwise_grad as egrad\nsin = np.sin\n"
              "jac = lambda f: (lambda x: autograd.jacobian(f)(x) * 1.0)\n"
@@ -179,62 +183,19 @@ def judge(ch, out):
              "jvp = lambda f: (lambda x: autograd.make_jvp(f)(x)(1.0)[1])\n"
              "print(%s, 'expected', %r)\n" % (src, want))
     if isinstance(got, tuple):
-        return violation(PROP, "nest", "-", feats["modes"], "raised", feats, ch.choices, ch.decoded(), got, want, repro)
-    if not abs(got - want) <= 1e-9 * (1 + abs(want)):
-        return violation(PROP, "nest", "-", feats["modes"], "wrong-value", feats, ch.choices, ch.decoded(), got, want, repro)
-    return None
+        res["v"] = violation(PROP, "nest", "-", feats["modes"], "raised", feats, ch.choices, ch.decoded(), got, want, repro)
+    elif not abs(got - want) <= 1e-9 * (1 + abs(want)):
+        res["v"] = violation(PROP, "nest", "-", feats["modes"], "wrong-value", feats, ch.choices, ch.decoded(), got, want, repro)
+    return res
 
 
-_CFG = {}
-
-
-def _job(prefix):
-    quick, seed = _CFG["quick"], _CFG["seed"]
-    h = harness_factory(quick, seed)
-    n = trans = nontriv = 0
-    vios, samples, outcomes = [], [], set()
-    for ch, out in leaves(h, prefix):
-        if isinstance(out, Skip):
-            continue
-        n += 1
-        trans += len(ch.choices)
-        t, src, want, got = out
-        # non-trivial: some inner level closes over an outer variable, or omits its own
-        if any((set(t["S"][k]) - {k}) or (k not in t["S"][k]) for k in range(1, t["depth"])):
-            nontriv += 1
-        outcomes.add(round(want, 9))
-        v = judge(ch, out)
-        if v:
-            vios.append(v)
-        if len(samples) < 2:
-            samples.append(dict(choices=list(ch.choices), source=src, expected=want, observed=got))
-    return n, trans, nontriv, vios[:200], len(vios), samples, len(outcomes)
+HARNESSES = {"nest": harness_factory}
 
 
 def run(ctx):
     rep = Report("exploration")
-    _CFG.update(quick=ctx.quick, seed=ctx.seed)
-    h = harness_factory(ctx.quick, ctx.seed)
-    # determinism self-test: first leaf twice
-    a = run_leaf(h, [])[1]
-    b = run_leaf(h, [])[1]
-    assert a[1:] == b[1:], "harness nondeterministic"
-    jobs = prefixes(h, 4 if ctx.quick else 5)
-    tot = dict(n=0, tr=0, nt=0, out=0, nv=0)
-    with ctx.pool() as pool:
-        for n, tr, nt, vios, nv, samples, nout in pool.imap_unordered(_job, jobs, chunksize=1):
-            tot["n"] += n
-            tot["tr"] += tr
-            tot["nt"] += nt
-            tot["out"] += nout
-            tot["nv"] += nv
-            rep.violations += vios
-            if len(rep.cov["samples"]) < 6:
-                rep.cov["samples"] += samples[:1]
-    rep.add(evaluations=tot["n"], states=tot["n"], transitions=tot["tr"], traces_validated_against_impl=tot["n"],
-            distinct_nontrivial=tot["nt"], distinct_expected_values_per_job_sum=tot["out"], raw_violations=tot["nv"],
-            jobs=len(jobs), exhaustive=True,
-            bound="depth<=3; quick tier walks depth 3 with default operator spelling, one operand order, one point",
+    run_harness(ctx, rep, __name__, "nest", depth=4 if ctx.quick else 5)
+    rep.add(bound="depth<=3; quick tier walks depth 3 with default operator spelling, one operand order, one point",
             rule="every nested-operator term (depth, mode per level, operator spelling, closure subset per level, "
                  "evaluation-point kind, operand order, point) is enumerated once; non-trivial = an inner body "
                  "mentions an enclosing variable or omits its own variable")
@@ -246,8 +207,4 @@ def run(ctx):
 
 
 def replay(ctx, v):
-    h = harness_factory(ctx.quick, ctx.seed)
-    ch, out = run_leaf(h, v["choices"])
-    if isinstance(out, Skip):
-        return None
-    return judge(ch, out)
+    return replay_generic(__name__, ctx, v)
